@@ -281,23 +281,23 @@ def compare(cfg, tl, S, E, names=None):
 def model_schedules(cfgs):
     """op 104 for each configuration -> list of None (not plain / not decodable) or (S, E)"""
     def query(c):
-        if has_forever(c):
-            S, E = py_schedule(c)
-            return [107] + enc_cfg(c) + enc_nats(S) + enc_nats(E)
-        return [106 if slow_handlers(c) else 104] + enc_cfg(c)
+        return [107 if has_forever(c) else 106 if slow_handlers(c) else 104] + enc_cfg(c)
     outs = core.run_driver([query(c) for c in cfgs])
     res = []
     for c, o in zip(cfgs, outs):
         n = len(c["jobs"])
         if has_forever(c):
-            # op 107: wf, plainF, is_scheduleFb, no_tieFb, slackFb on the tables computed here
-            if not o or o[0] != 1 or len(o) != 6:
+            # op 107: wf, plainF, is_scheduleFb (of solveF), no_tieFb, slackFb, S, E
+            if not o or o[0] != 1 or len(o) != 6 + 2 * n:
                 res.append(("undecodable", None, None))
             elif o[1:6] != [1, 1, 1, 1, 1]:
-                res.append(("model-refuses:wf,plainF,equations,no-tie,slack=%s" % o[1:6], None, None))
+                res.append(("model-refuses:wf,plainF,solver-check,no-tie,slack=%s" % o[1:6], None, None))
             else:
-                S, E = py_schedule(c)
-                res.append(("ok", S, E))
+                S, E = o[6:6 + n], o[6 + n:6 + 2 * n]
+                if (S, E) != tuple(py_schedule(c)):
+                    res.append(("solver-differs-from-direct-recursion", None, None))
+                else:
+                    res.append(("ok", S, E))
             continue
         if slow_handlers(c):
             # op 106: wf, plainH, is_scheduleHb, slack of the main loops, S, E
@@ -425,9 +425,9 @@ SCHED_RULE = (" Closed-form schedule: a quarter as many additional plain trees (
               "handlers of zero duration; nesting up to depth 3, raising and critical jobs allowed; half of them with "
               "timeouts on random schedulers that their schedule does not reach, a third with shutdown handlers of 1-3 time "
               "units on random jobs: schedule with shutdown phases, solveH / is_scheduleHb, driver op 106, theorem "
-              "runs_on_scheduleH, no flattened-graph comparison for those; a third with forever jobs added: tables computed "
-              "by the harness and checked by is_scheduleFb / no_tieFb / slackFb, driver op 107, theorem "
-              "runs_on_scheduleF) are generated; for each, and for every such "
+              "runs_on_scheduleH, no flattened-graph comparison for those; a third with forever jobs added: solveF, "
+              "is_scheduleFb / no_tieFb / slackFb, driver op 107, theorem runs_on_scheduleF) are generated; for each, "
+              "and for every such "
               "tree of the main batch, the extracted model computes the start and end instant of every job (solve, accepted "
               "only if is_scheduleb and slackb hold: driver op 104; also compared with a direct recursion written in the "
               "harness), the implementation is run and every body entry/exit strictly before the first instant at which a "
